@@ -34,6 +34,13 @@ func init() {
 						}
 					}
 				}
+				// size classes beyond 1 GiB (untouched zero memory: cheap): conversions must not depend on
+				// any fixed maximum length
+				for _, bl := range []int{1 << 30, 1<<30 + 1, 1<<30 + 16} {
+					g.Add("huge", Ls(I(op), I(bl), I(0), I(bl), I(bl), I(0)))
+					g.Add("huge", Ls(I(op), I(bl), I(8), I(bl-8), I(bl-8), I(0)))
+					g.Add("huge", Ls(I(op), I(bl), I(bl-5), I(5), I(5), I(0)))
+				}
 				n := g.Scale(300, 20000)
 				for i := 0; i < n; i++ {
 					bl := g.R.Intn(5000)
@@ -47,8 +54,54 @@ func init() {
 		Run: func(in V) V {
 			a := AsList(in)
 			op, bl, off, ln, cp, nilf := AsInt(a[0]), AsInt(a[1]), AsInt(a[2]), AsInt(a[3]), AsInt(a[4]), AsInt(a[5])
-			base := Pat(bl+off, bl)
-			eq := func(x, y []byte) bool { return string(x) == string(y) }
+			var base []byte
+			huge := bl > 1<<26
+			if huge {
+				base = make([]byte, bl) // fresh zero pages, never touched except at the sampled positions
+				for _, i := range []int{0, 1, bl / 2, bl - 2, bl - 1} {
+					base[i] = byte(i*7 + 3)
+				}
+			} else {
+				base = Pat(bl+off, bl)
+			}
+			eq := func(x, y []byte) bool {
+				if !huge {
+					return string(x) == string(y)
+				}
+				if len(x) != len(y) {
+					return false
+				}
+				for _, i := range []int{0, 1, len(x) / 2, len(x) - 2, len(x) - 1} {
+					if i >= 0 && i < len(x) && x[i] != y[i] {
+						return false
+					}
+				}
+				return true
+			}
+			if huge {
+				// no copies of a gigabyte: sampled content, pointer, len, cap only
+				sample := func(get func(i int) byte, n int) bool {
+					for _, i := range []int{0, 1, n / 2, n - 2, n - 1} {
+						if i >= 0 && i < n && get(i) != base[off+i] {
+							return false
+						}
+					}
+					return true
+				}
+				if op == 0 {
+					b := base[off : off+ln : off+cp]
+					s := unsafex.BinaryToString(b)
+					po := int(uintptr(unsafe.Pointer(unsafe.StringData(s))) - uintptr(unsafe.Pointer(&base[0])))
+					return Ls(I(po), I(len(s)), I(len(s)), Bo(len(s) == ln && sample(func(i int) byte { return s[i] }, len(s))), I(1), I(1))
+				}
+				bs := unsafe.String(&base[0], len(base))
+				s := bs[off : off+ln]
+				b := unsafex.StringToBinary(s)
+				po := int(uintptr(unsafe.Pointer(&b[0])) - uintptr(unsafe.Pointer(&base[0])))
+				ok := len(b) == ln && sample(func(i int) byte { return b[i] }, len(b))
+				// cap == len is what makes an append reallocate; the append itself is not run at this size
+				return Ls(I(po), I(len(b)), I(cap(b)), Bo(ok), I(1), Bo(cap(b) == len(b)))
+			}
 			if op == 0 {
 				var b []byte
 				if nilf == 0 {
